@@ -275,7 +275,7 @@ var forgeryKinds = []string{
 	"A7-anchor-removed", "A7-anchor-same-ski-other-key", "A7-anchor-not-ca", "A7-anchor-no-keycertsign", "A7-anchor-critical-eku", "A7-anchor-unknown-critical", "A7-anchor-no-bc", "A7-anchor-bc-ca-false",
 	"A7-ds-no-keyusage", "A7-ds-no-digitalsignature", "A7-ds-unknown-critical",
 	"A7-time-ds-before", "A7-time-ds-after", "A7-time-csca-after", "A7-time-csca-before", "A7-country-mismatch", "A7-country-unmappable", "A7-wrong-content-type", "A7-econtenttype-relabelled", "A7-wrong-message-digest",
-	"A8-cardsec-econtent", "A8-cardsec-resigned-untrusted", "A8-cardsec-signedattrs", "A8-cardsec-foreign-signer",
+	"A8-cardsec-econtent", "A8-cardsec-resigned-untrusted", "A8-cardsec-signedattrs", "A8-cardsec-foreign-signer", "A8-cardsec-time-ds-after", "A8-cardsec-time-ds-before",
 	"A9-ml-tampered", "A9-ml-wrong-root", "A9-ml-signer-unchained", "A9-ml-signer-no-ku", "A9-ml-byte", "A9-ml-own-anchor", "A9-ml-self-issued-signer",
 	"A10-sod-byte", "A10-cardsec-byte",
 }
@@ -641,6 +641,17 @@ func (PKIForgeryEngine) Run(prop string, ci any) *core.Outcome {
 		}
 		cs[rg.Off+c.A%rg.Len] ^= byte(1 << uint(c.B%8))
 		mfF[chip.FidCardSecurity] = cs
+	case "A8-cardsec-time-ds-after", "A8-cardsec-time-ds-before":
+		// issuer clock skew on EF.CardSecurity alone: its own stated signing time lies outside the validity of its
+		// signer certificate, while the EF.SOD (with its own, valid signing time) is untouched
+		sp := w.CardSec.Spec
+		skew := time.Duration(1+c.A%3*3600) * time.Second
+		t := sp.SignerCert.Spec.NotAfter.Add(skew)
+		if c.Fault == "A8-cardsec-time-ds-before" {
+			t = sp.SignerCert.Spec.NotBefore.Add(-skew)
+		}
+		sp.SigningTime = &t
+		mfF[chip.FidCardSecurity] = pki.BuildSignedData(sp, rng).DER
 	case "A8-cardsec-resigned-untrusted":
 		evilCA := pki.NewECKey(12, rng, false)
 		evilName := pki.CountryName(w.Alpha2, "Evil", "CSCA")
